@@ -743,6 +743,25 @@ def derive_table():
 _FORBIDDEN_WORD = re.compile(r"\b(Admitted|admit|Axioms?|Parameters?|Conjectures?|Hypothes[ie]s|Variables?)\b")
 
 
+def identifier_predicates():
+    """the character predicates of fmt/parsing.rs `identifier`: the argument of every `check_char(..)` / `char(..)` call
+    in its body, in order"""
+    src = open(os.path.join(common.REPO, "impl", "src", "fmt", "parsing.rs"), encoding="utf-8").read()
+    toks = lex(src)
+    partner = match_groups(toks)
+    out = []
+    for i, t in enumerate(toks):
+        if t.t == "fn" and i + 1 < len(toks) and toks[i + 1].t == "identifier":
+            j = i
+            while toks[j].t != "{":
+                j += 1
+            for k in range(j, partner[j]):
+                if toks[k].t in ("check_char", "char") and toks[k + 1].t == "(" and toks[k - 1].t not in ("::", "."):
+                    out.append(toks[k].t + " " + _norm(toks[k + 2:partner[k + 1]]))
+            break
+    return out
+
+
 def coq_string(s):
     s = "".join(ch if 0x20 <= ord(ch) < 0x7f else "?" for ch in s)
     # Rust identifiers such as `Parameter` would trip the framework's scan for forbidden Coq declarations
@@ -808,6 +827,9 @@ def generate(path=None):
     lines.append(";\n".join("  (%s, [%s])" % (coq_string(k), "; ".join(coq_string(g) for g in v))
                              for k, v in sorted(LETS.items())))
     lines.append("].")
+    lines.append("")
+    lines.append("(* the character predicates of fmt/parsing.rs `identifier` (arguments of its check_char / char calls) *)")
+    lines.append("Definition identifier_predicates : list string := [%s]." % "; ".join(coq_string(x) for x in identifier_predicates()))
     lines.append("")
     lines.append("(* the usize subtractions of utils.rs fields_ext::FieldsExt::validate_type: (match arm, left operand, right operand) *)")
     lines.append("Inductive vt_branch := VBGreater | VBLess | VBEqual | VBOther | VBNone.")
